@@ -21,7 +21,11 @@ import H3.Model.WriteBuf
       it, finished.  A write after STOP_SENDING fails with the transport's
       `StreamTerminated{code}`, which `handle_quic_stream_error` turns into the stream-level
       `RemoteTerminate{code}` without touching the cell (`connection_error_creators.rs`).  Write
-      credit is unlimited (a call writes its whole `WriteBuf`: C14 covers acceptance patterns), the
+      back-pressure: `stream::write` = `send_data(frame)` + `poll_ready` until everything is written; the
+      transport takes what the stream's credit allows (`Cfg.wc` initial credit of every stream, `none` =
+      unlimited; the peer grants more, `Peer.grant`), a call that could not write everything answers
+      `Pending` and goes on where it stopped when it is polled again; STOP_SENDING ends it with
+      `RemoteTerminate` and the buffer is dropped.  (C14 covers the acceptance patterns in detail.)  The
       once-per-connection grease frame of `finish` is off.
     * the driver (`poll_connection_error`): when it finds the cell filled it calls
       `quic::Connection::close` with the code, once (C05).
@@ -73,6 +77,8 @@ structure Cfg where
   /-- transport: does `poll_finish` report an earlier STOP_SENDING (Quinn: yes; SimQuic: no).
       h3 maps whatever it reports through `handle_quic_stream_error`. -/
   finSeesStop : Bool := false
+  /-- transport: initial write credit of every stream in bytes (`wc=<n>`); `none` = unlimited -/
+  wc : Option Nat := none
 
 /-! ### events -/
 
@@ -84,6 +90,8 @@ inductive Peer where
   | reset (c : Nat)
   /-- STOP_SENDING with any code -/
   | stop (c : Nat)
+  /-- the peer grants `n` more bytes of write credit on this stream (flow control) -/
+  | grant (n : Nat)
 deriving Repr, DecidableEq
 
 inductive Call where
@@ -138,6 +146,11 @@ structure Send where
   /-- code of the STOP_SENDING the peer sent for this stream (first one) -/
   stopped : Option Nat := none
   fin : Bool := false
+  /-- write credit the peer has granted on top of the initial credit `Cfg.wc` -/
+  granted : Nat := 0
+  /-- the transport's write buffer: what is left of the frame handed to `send_data` that `poll_ready` has
+      not been able to write yet (the call in flight is `Pending`) -/
+  writing : Option Bytes := none
 deriving Repr, DecidableEq
 
 deriving instance DecidableEq for H3.ReqRecv.St
@@ -164,6 +177,7 @@ def Req.deliver (r : Req) : Peer → Req
   | .fin => { r with rx := { r.rx with src := (r.rx.src.1, r.rx.src.2 ++ [.fin]) } }
   | .reset c => { r with rx := { r.rx with src := (r.rx.src.1, r.rx.src.2 ++ [.reset c]) } }
   | .stop c => { r with snd := { r.snd with stopped := first r.snd.stopped c } }
+  | .grant n => { r with snd := { r.snd with granted := r.snd.granted + n } }
 
 /-- is the call one the application can make now? (server: only the resolver before it has
     answered, then everything but the resolver; client: the handle is there from `send_request`) -/
@@ -175,16 +189,33 @@ def accepts (role : Role) (r : Req) (c : Call) : Bool :=
   | .server, true, _ => true
   | .client, _, _ => true
 
-/-- `stream::write(&mut self.stream, frame)`: after STOP_SENDING the transport answers
-    `StreamTerminated{c}` ⇒ `RemoteTerminate{c}`; nothing is written then. -/
-def Send.write (s : Send) (f : H3.WriteBuf.SFrame) : Send × Obs :=
+/-- bytes the transport still accepts on the stream: initial credit + grants − what it has taken -/
+def Send.avail (wc : Option Nat) (s : Send) : Option Nat := wc.map (fun w => w + s.granted - s.tx.length)
+
+/-- `poll_ready` with `w` left to write: the transport takes what the credit allows; `Pending` (the rest
+    stays in its buffer) unless that was everything -/
+def Send.flush (wc : Option Nat) (s : Send) (w : Bytes) : Send × Obs :=
+  match s.avail wc with
+  | none => ({ s with tx := s.tx ++ w, writing := none }, .ok)
+  | some k =>
+    if w.length ≤ k then ({ s with tx := s.tx ++ w, writing := none }, .ok)
+    else ({ s with tx := s.tx ++ w.take k, writing := some (w.drop k) }, .ans (.res .pending))
+
+/-- `stream::write(&mut self.stream, frame)` = `send_data(frame)?` then `poll_ready` until it answers, one
+    poll: after STOP_SENDING the transport answers `StreamTerminated{c}` ⇒ `RemoteTerminate{c}` (nothing
+    more is written, the buffer is dropped); a call polled while a write is in flight is that write's
+    future polled again. -/
+def Send.write (wc : Option Nat) (s : Send) (f : H3.WriteBuf.SFrame) : Send × Obs :=
   if s.fin then (s, .noHandle) else
   match s.stopped with
-  | some c => (s, .ans (.res (.errReset c)))
+  | some c => ({ s with writing := none }, .ans (.res (.errReset c)))
   | none =>
-    match H3.WriteBuf.fromFrame f with
-    | none => (s, .ans (.res .panic))
-    | some w => ({ s with tx := s.tx ++ w.view }, .ok)
+    match s.writing with
+    | some rest => s.flush wc rest
+    | none =>
+      match H3.WriteBuf.fromFrame f with
+      | none => (s, .ans (.res .panic))
+      | some w => s.flush wc w.view
 
 /-- `finish()` (grease off): `poll_finish` -/
 def Send.finish (finSeesStop : Bool) (s : Send) : Send × Obs :=
@@ -194,12 +225,14 @@ def Send.finish (finSeesStop : Bool) (s : Send) : Send × Obs :=
   | none => ({ s with fin := true }, .ok)
 
 /-- `REQUEST_HEADER_FIELDS_TOO_LARGE` on the server: the resolver is consumed; the 431 is written
-    on THIS stream unless refused / the peer stopped it (`?` returns the send error instead) -/
+    on THIS stream unless refused / the peer stopped it (`?` returns the send error instead).  The 431
+    write is modelled without back-pressure (eight bytes; a `resolve_request` pending inside its own
+    `send_response` is not modelled: the scenarios do not combine `wc=` with an oversized request). -/
 def tooBigServer (cfg : Cfg) (r : Req) : Req × Obs :=
   match cfg.resp431 with
   | none => ({ r with gone := true }, .ans .tooBig)
   | some fs =>
-    let (s', o) := r.snd.write (.headers fs)
+    let (s', o) := r.snd.write none (.headers fs)
     ({ r with snd := s', gone := true }, if o = .ok then .ans .tooBig else o)
 
 /-- client: `stop_sending(H3_REQUEST_CANCELLED)` then `HeaderTooBig` -/
@@ -253,8 +286,8 @@ def stepBody (cfg : Cfg) (fuel : Nat) (cell : Option Nat) (r : Req) : Req × Opt
       ({ r with rx := unload st3, atTrailers := true }, st3.env.cell, .body rs (some a))
     else ({ r with rx := unload st2 }, st2.env.cell, .body rs none)
 
-def stepSend (r : Req) (f : H3.WriteBuf.SFrame) : Req × Obs :=
-  let (s', o) := r.snd.write f
+def stepSend (cfg : Cfg) (r : Req) (f : H3.WriteBuf.SFrame) : Req × Obs :=
+  let (s', o) := r.snd.write cfg.wc f
   ({ r with snd := s' }, o)
 
 /-- One event of one request: the request's new state, the cell as the step leaves it, and what the
@@ -269,9 +302,9 @@ def Req.step (cfg : Cfg) (cell : Option Nat) (r : Req) : StreamEv → Req × Opt
     | .data => stepData cell r
     | .trailers => stepTrailers cfg cell r
     | .body fuel => stepBody cfg fuel cell r
-    | .sendHead fs => ((stepSend r (.headers fs)).1, cell, (stepSend r (.headers fs)).2)
-    | .sendData b => ((stepSend r (.data b)).1, cell, (stepSend r (.data b)).2)
-    | .sendTrailers fs => ((stepSend r (.headers fs)).1, cell, (stepSend r (.headers fs)).2)
+    | .sendHead fs => ((stepSend cfg r (.headers fs)).1, cell, (stepSend cfg r (.headers fs)).2)
+    | .sendData b => ((stepSend cfg r (.data b)).1, cell, (stepSend cfg r (.data b)).2)
+    | .sendTrailers fs => ((stepSend cfg r (.headers fs)).1, cell, (stepSend cfg r (.headers fs)).2)
     | .finish =>
       ({ r with snd := (r.snd.finish cfg.finSeesStop).1 }, cell, (r.snd.finish cfg.finSeesStop).2)
 
